@@ -8,6 +8,7 @@ From VL Require Import Prelude.PyDict Model.GetNBest Model.HighestAverages Model
      Proofs.GetNBest_proofs Proofs.QOrd Proofs.Scale_proofs Proofs.Minimax_proofs Proofs.LRScale_proofs Proofs.Schulze_proofs
      Model.Quota Model.QuotaDistributor.
 From VL Require Model.Convert Model.STV Proofs.STVScale_proofs.
+From VL Require Proofs.SchwartzInv_proofs.
 From VL Require Prelude.Sx Prelude.GDict Model.Bucklin Model.Cardinal Proofs.Scale2_proofs Proofs.Scale2Add_proofs Proofs.Scale2Bucklin_proofs
      Proofs.Scale2PAV_proofs Proofs.Scale2Score_proofs Proofs.Scale2MJ_proofs Proofs.Scale2Complete_proofs.
 Import ListNotations.
@@ -32,6 +33,9 @@ Theorem C11_scale_copeland : forall (k : Z) so v n, (0 < k)%Z -> copeland so (sc
 Proof. intros k so v n Hk. exact (copeland_scale k Hk so v n). Qed.
 Theorem C11_scale_smith_schwartz : forall (k : Z) v ties, (0 < k)%Z -> smith_schwartz (scalez k v) ties = smith_schwartz v ties.
 Proof. intros k v ties Hk. exact (smith_schwartz_scale k Hk v ties). Qed.
+(* SchwartzSet after the repair fixes/C06-schwartz-set (Condorcet.schwartz_set) *)
+Theorem C11_scale_schwartz_set : forall (k : Z) v, (0 < k)%Z -> schwartz_set (scalez k v) = schwartz_set v.
+Proof. intros k v Hk. exact (SchwartzInv_proofs.schwartz_set_scale k v Hk). Qed.
 
 Theorem C11_scale_minimax : forall (k : Z) s v n, (0 < k)%Z -> minimax s (scalez k v) n = minimax s v n.
 Proof. intros k s v n Hk. exact (minimax_scale k Hk s v n). Qed.
@@ -505,6 +509,7 @@ Print Assumptions C11_scale_pairwise_wins.
 Print Assumptions C11_scale_condorcet_winner.
 Print Assumptions C11_scale_copeland.
 Print Assumptions C11_scale_smith_schwartz.
+Print Assumptions C11_scale_schwartz_set.
 Print Assumptions C11_scale_minimax.
 Print Assumptions C11_scale_quota_distributor.
 Print Assumptions C11_scale_largest_remainder.
